@@ -124,6 +124,30 @@ Theorem C08_decimal_overflow : forall (neg : bool) (m e10 : Z),
 Proof. exact f_of_dec_guard_large. Qed.
 Print Assumptions C08_decimal_overflow.
 
+(** text that auto-converts to the integer i IS that integer as an operand of + - * and as a divisor - for every left
+    operand, a duration included (fixes 3ad586e, 46e1115) *)
+Theorem C08_integer_text_is_the_integer : forall l s i, from_string s = VInt i ->
+  vadd l (VStr s) = vadd l (VInt i) /\ vsub l (VStr s) = vsub l (VInt i) /\
+  vmul l (VStr s) = vmul l (VInt i) /\ vdiv l (VStr s) = vdiv l (VInt i) /\
+  vadd (VStr s) l = vadd (VInt i) l /\ vsub (VStr s) l = vsub (VInt i) l /\ vmul (VStr s) l = vmul (VInt i) l.
+Proof.
+  intros l s i H. unfold vadd, vsub, vmul, vdiv. cbn [int_text]. rewrite H. repeat split; reflexivity.
+Qed.
+Print Assumptions C08_integer_text_is_the_integer.
+Example C08_duration_divided_by_text :
+  vdiv (VDur 3600000000000) (VStr (lit "2")) = Ok (VDur 1800000000000) /\
+  vmul (VDur 3600000000000) (VStr (lit " 2 ")) = Ok (VDur 7200000000000).
+Proof. vm_compute. split; reflexivity. Qed.
+
+(** text that needs the aggressive conversion keeps the minus sign found before its first digit (fixes bda0777, 80926c1) *)
+Example C08_sign_of_formatted_text :
+  aggressively_to_num (lit "$-1,000") = Ok (f_of_Z (-1000)) /\
+  aggressively_to_num (lit "USD -5.50") = Ok (f_of_dec true 55 (-1)) /\
+  aggressively_to_num (lit "-$7") = Ok (f_of_Z (-7)) /\
+  aggressively_to_num (lit "$1,000") = Ok (f_of_Z 1000) /\
+  aggressively_to_num (lit "2021-05-03") = Ok (f_of_Z 20210503).
+Proof. vm_compute. repeat split. Qed.
+
 (** KF-48 - "never sign-stripped" is FALSE at exactly one double: the negative zero.  It is integral and in
     range, so the normalisation makes it the integer 0 (which has no sign); 1/x is then +inf where IEEE says
     -inf.  The witness replayed on the binary is the known finding; for every other double the integer
